@@ -53,6 +53,7 @@ ToS5(s, ev) ==
                                       ELSE <<0, cfg.pools[r]>>],
      nleaf |-> s.nleaf, inited |-> s.inited,
      occ |-> [i \in DOMAIN ev.occ |-> Tup(ev.occ[i])], sd |-> [i \in DOMAIN ev.sd |-> Tup(ev.sd[i])],
+     sch |-> [i \in DOMAIN s.sch |-> [idx |-> s.sch[i].idx, state |-> s.sch[i].state, nrec |-> s.sch[i].nrec]],
      mt |-> [queue |-> [i \in DOMAIN s.mt.queue |-> <<s.mt.queue[i][1], s.mt.queue[i][2]>>],
              active |-> [i \in DOMAIN s.mt.active |-> <<s.mt.active[i][1], s.mt.active[i][2]>>],
              util |-> s.mt.util, value |-> s.mt.value, nvh |-> s.mt.nvh,
